@@ -201,6 +201,11 @@ class ExtTestCase(unittest.TestCase):
         ):
             self.assertEqual(expected.dtype, value.dtype)
         self.assertEqual(expected.shape, value.shape)
+        if expected.dtype.kind in "OUS":
+            # strings, objects (feature names...): no tolerance applies
+            if not numpy.array_equal(expected, value):
+                raise AssertionError(f"Arrays are different {expected!r} != {value!r}.")
+            return
         assert_allclose(expected, value, atol=atol, rtol=rtol)
 
     def assertNotEqualArray(
